@@ -142,6 +142,10 @@ type spec struct {
 }
 
 type pk struct{ h, p int }
+type ghost struct {
+	k   pk
+	exp time.Duration
+}
 type ck struct{ h, p, i int }
 
 const (
@@ -166,6 +170,14 @@ type csys struct {
 	closed map[ck]bool // conn was closed
 	was    map[ck]bool // conn has been active before (older conn once removed)
 	bl     map[pk]time.Duration
+	// history variables: blacklistings removed by ClearBlacklist before they
+	// lapsed, with their original expiry. They change nothing in the model's
+	// answers, but they are part of the state key (until one BlacklistDuration
+	// after their original expiry) so that "blacklist, clear, blacklist again"
+	// histories are not merged with histories that never blacklisted: an
+	// implementation that keeps bookkeeping per blacklisting (expiry queue,
+	// timers) has hidden state there.
+	ghosts []ghost
 	now    time.Duration
 
 	// boundary: pairs for which now == expiration was reached and the
@@ -325,7 +337,7 @@ func (s *csys) Ops() []string {
 		for h := range sp.peers {
 			ops = append(ops, fmt.Sprintf("clr h%d", h))
 		}
-		if len(s.bl) > 0 { // without blacklist entries time is not observable
+		if len(s.bl)+len(s.ghosts) > 0 { // without any blacklisting so far time is not observable
 			for _, dt := range sp.dts {
 				ops = append(ops, fmt.Sprintf("adv %d", int(dt/time.Second)))
 			}
@@ -520,6 +532,11 @@ func (s *csys) Apply(op string) (err error) {
 				s.class("bl:re-blacklist-extends")
 			} else {
 				s.class("bl:ok")
+				for _, g := range s.ghosts {
+					if g.k == k && s.now < g.exp {
+						s.class("bl:ok-again-after-clear-before-first-expiry")
+					}
+				}
 			}
 		} else {
 			if !has || s.now > exp {
@@ -533,6 +550,7 @@ func (s *csys) Apply(op string) (err error) {
 			if b.h == h {
 				if s.now < exp {
 					s.class("clr:removes-live-entry")
+					s.ghosts = append(s.ghosts, ghost{b, exp})
 				}
 				delete(s.bl, b)
 			} else if s.now < exp {
@@ -545,6 +563,13 @@ func (s *csys) Apply(op string) (err error) {
 		d := time.Duration(secs) * time.Second
 		s.clk.Advance(d)
 		s.now += d
+		var keep []ghost
+		for _, g := range s.ghosts {
+			if s.now < g.exp+blDur {
+				keep = append(keep, g)
+			}
+		}
+		s.ghosts = keep
 	default:
 		return fmt.Errorf("unknown op %q", op)
 	}
@@ -644,6 +669,11 @@ func (s *csys) check(op string) error {
 					return bfs.Failf("model-conformance: BlacklistSnapshot differs from model", "after %q: (h%d,%s) snapshot %v (present %v), model %v", op, h, peerNames[p], rem, ok, exp-s.now)
 				}
 				s.class("blacklisted:true-before-expiry")
+				for _, g := range s.ghosts {
+					if g.k == k && g.exp <= s.now {
+						s.class("blacklisted:true-past-expiry-of-cleared-earlier-blacklisting")
+					}
+				}
 				if exp-s.now == time.Second {
 					s.class("blacklisted:true-1s-before-expiry")
 				}
@@ -689,6 +719,9 @@ func (s *csys) Key() string {
 	// real observable blacklist state (includes expired entries and their age)
 	for _, e := range s.st.BlacklistSnapshot() {
 		keys = append(keys, fmt.Sprintf("bl:h%d%s=%d", hashIndex(e.InfoHash), peerNames[peerIndex(e.PeerID)], int64(e.Remaining/time.Millisecond)))
+	}
+	for _, g := range s.ghosts {
+		keys = append(keys, fmt.Sprintf("ghost:h%d%s=%d", g.k.h, peerNames[g.k.p], int64((g.exp-s.now)/time.Millisecond)))
 	}
 	for k, exp := range s.bl {
 		keys = append(keys, fmt.Sprintf("mbl:h%d%s=%d", k.h, peerNames[k.p], int64((exp-s.now)/time.Millisecond)))
@@ -737,7 +770,7 @@ var requiredClasses = []string{
 	"move:ok", "move:ok-replaces-older-conn", "move:refused-closed", "move:refused-not-pending",
 	"dela:removed", "dela:noop-older-replaced-conn", "dela:noop-never-active-conn", "dela:noop-on-pending",
 	"delp:removed", "delp:noop-on-active",
-	"bl:ok", "bl:refused-already-blacklisted", "blacklisted:true-before-expiry", "blacklisted:true-1s-before-expiry", "blacklisted:false-after-expiry",
+	"bl:ok", "bl:ok-again-after-clear-before-first-expiry", "blacklisted:true-past-expiry-of-cleared-earlier-blacklisting", "bl:refused-already-blacklisted", "blacklisted:true-before-expiry", "blacklisted:true-1s-before-expiry", "blacklisted:false-after-expiry",
 	"clr:removes-live-entry", "clr:keeps-other-torrent-entry",
 }
 
